@@ -150,6 +150,21 @@ def materialised_at_exit(res: Result, selfp: T, st) -> Dict[str, bool]:
     return out
 
 
+def _called_within_class(prog, results, c, m: Function) -> bool:
+    for other in c.methods.values():
+        if other is m:
+            continue
+        r = results.get(other.qualname)
+        if r is None:
+            continue
+        for e in r.of_kind("call"):
+            tgt = e.data.get("target")
+            if tgt is m or (e.data.get("name") or "").endswith(
+                    "." + m.name):
+                return True
+    return False
+
+
 def mutator_methods(prog, results) -> List[Function]:
     """methods of the trajectory classes that store to a view directly"""
     out = []
@@ -157,6 +172,11 @@ def mutator_methods(prog, results) -> List[Function]:
         c = prog.cls(cq)
         for name, m in sorted(c.methods.items()):
             if name == "__init__" or (m.is_property and name in PUBLIC):
+                continue
+            if name.startswith("_") and not name.startswith("__") and \
+                    _called_within_class(prog, results, c, m):
+                # private helper of other methods: judged as part of its
+                # callers (it is looked through when they are analysed)
                 continue
             r = results[m.qualname]
             selfp = tm.param(m.params[0]) if m.params else None
@@ -374,8 +394,7 @@ def _derived(ctx, prog):
     pos = tm.attr(selfp, "positions_xyz")
     ts = tm.attr(selfp, "timestamps")
     # views are read through the lazy getters: do not inline them here
-    plain = Interp(prog, inline=lambda fn: False, inline_properties=False,
-                   auto_inline=False)
+    plain = Interp(prog, inline=lambda fn: False, inline_properties=False)
 
     def final(fq):
         f = prog.func(fq)
@@ -449,7 +468,8 @@ def _derived(ctx, prog):
             and seqs[2] is ts and seqs[3] is ts and cnt == -1
         why = f"offsets {offs}, count n{cnt:+d}"
     if ok is None:
-        ctx.undecidable("C08.7", f, f"speeds: form not recognised: {why}")
+        ctx.unrecognised("C08.7", f, f"speeds: form not recognised: {why}",
+                         key="C08.7:def:speeds")
     else:
         ctx.ob("C08.7", f, ok,
                "speeds[k] = calc_speed(p_k, p_(k+1), t_k, t_(k+1)) for all "
